@@ -111,4 +111,9 @@ let () =
   styled "convsrtstl" 0 convert_srt_stl;
   styled "convvttstl" 1 convert_vtt_stl;
   styled "convssastl" 2 convert_ssa_stl;
-  styled "convttmlstl" 4 convert_ttml_stl
+  styled "convttmlstl" 4 convert_ttml_stl;
+  (* C07 styled STL sources (Model/ConvStlVtt.v, ConvStlTtml.v) *)
+  register "convstlvtt" (fun r -> let ign = rbool r in let d = rstr r in
+    let res = convert_stl_vtt ign d in if read_faithful d then pres pstr res else ns_class res);
+  register "convstlttml" (fun r -> let ign = rbool r in let d = rstr r in
+    let res = convert_stl_ttml_go ign d in if read_faithful d then pres pstr res else ns_class res)
